@@ -224,7 +224,7 @@ def show_dict(d, multipart):
     return '{' + ';'.join(out) + '}'
 
 
-ACC_ATTR = {'b': 'body', 'j': 'json', 'p': 'POST', 'f': 'forms', 'F': 'files', 'P': 'params'}   # 'P': oracles only
+ACC_ATTR = {'b': 'body', 'j': 'json', 'p': 'POST', 'f': 'forms', 'F': 'files'}
 BASES = ['ValueError', 'KeyError', 'RuntimeError', 'TypeError', 'IndexError', 'AssertionError', 'AttributeError']
 
 
